@@ -103,7 +103,7 @@ impl Ctx {
         self.tier == Tier::Quick
     }
     pub fn is_miri(&self) -> bool {
-        self.mode == "miri"
+        self.mode.starts_with("miri")
     }
     /// pick a count by tier (and a much smaller one for Miri)
     pub fn n(&self, quick: u64, thorough: u64) -> u64 {
